@@ -25,6 +25,7 @@ import (
 	"github.com/dominant-strategies/go-quai/core"
 	"github.com/dominant-strategies/go-quai/core/rawdb"
 	"github.com/dominant-strategies/go-quai/core/types"
+	"github.com/dominant-strategies/go-quai/ethdb"
 	"github.com/dominant-strategies/go-quai/log"
 	"github.com/dominant-strategies/go-quai/params"
 	"verifharness/hlib"
@@ -75,6 +76,12 @@ func main() {
 	}()
 
 	if f.Replay != "" {
+		var ec evmCase
+		hlib.ReadReplayCase(f.Replay, &ec)
+		if ec.IsEvm {
+			runEvm(ec.Evm, false, "")
+			return
+		}
 		var c caseJSON
 		hlib.ReadReplayCase(f.Replay, &c)
 		runScenario(cw, c.ID/100, c.Params, c.Action)
@@ -83,6 +90,12 @@ func main() {
 	r := hlib.NewRng(f.Seed)
 	idx := 0
 	if v := os.Getenv("C11_ONLY"); v != "" { // development aid: a single corpus scenario
+		if v == "evm" {
+			for i := 0; i < nEvmCorpus; i++ {
+				runEvm(evmCorpus(i), false, "")
+			}
+			return
+		}
 		var i int
 		fmt.Sscan(v, &i)
 		runScenario(cw, i, corpusParams(i), -1)
@@ -105,6 +118,16 @@ func main() {
 		// write path): structural write-log monitor on every append / the reorg; crash points of the
 		// large append and of the reorg in thorough
 		runOnEngine(be, corpusParams(3), f.Tier == "thorough")
+	}
+	// round 3: blocks that write contract storage and code (evm.go); every crash point of the creating
+	// and of the calling append on memorydb, first and last crash point on the real engines
+	for i := 0; i < nEvmCorpus; i++ {
+		runEvm(evmCorpus(i), false, "")
+	}
+	for _, be := range backends {
+		imgBackend = be
+		runEvm(evmCorpus(0), f.Tier != "thorough", "backend:")
+		imgBackend = "mem"
 	}
 	n := f.N
 	for i := 0; i < n; i++ {
@@ -335,7 +358,7 @@ func enumerate(s *scenario, a *action, cid, ai int) []kObs {
 		// same state: effects of the child under the parent's head), structural monitors keep theirs
 		fail := func(mon, what string) {
 			sig := "crash:" + phase + ":" + mon
-			if strings.HasSuffix(phase, "after-block-batch-before-head") && mon != "open" && mon != "head" && mon != "state-missing" {
+			if strings.HasSuffix(phase, "after-block-batch-before-head") && mon != "open" && mon != "head" && mon != "state-missing" && mon != "canonical-index" {
 				sig = "crash:" + phase
 			}
 			rep.Fail(sig, fmt.Sprintf("%s [%s] (action %s, crash after %d of %d top-level writes)", what, mon, a.Kind, k, len(a.Ops)), cj)
@@ -381,10 +404,20 @@ func enumerate(s *scenario, a *action, cid, ai int) []kObs {
 				fail("commitment-mismatch", "multiset hash / size recomputed from the 'ut' key space differ from the reported head's UTXORoot / stored set size")
 			}
 		}
+		// (2b) the number->hash index: the reported head and every ancestor of it must be found by
+		// number (dangling entries ABOVE the head are harmless and not constrained); block processing
+		// looks blocks up by number (lockup redemption, trimming), a hole makes later blocks unprocessable
+		if o.Head >= 0 {
+			if n, bad := s.canonHole(db, o.Head); bad {
+				cons = false
+				fail("canonical-index", fmt.Sprintf("the reported head's chain is not on the number->hash index: the canonical hash at height %d is missing or names another block", n))
+			}
+		}
 		// (3) state of the reported head fully present
 		o.StateOK = true
 		if o.Head > 0 {
-			if err := triePresent(db, head.EVMRoot()); err != nil {
+			// deep walk: account trie, every referenced storage trie, every referenced contract code
+			if _, _, _, err := statePresentDeep(db, head.EVMRoot()); err != nil {
 				o.StateOK = false
 			}
 			if err := triePresent(db, head.EtxSetRoot()); err != nil {
@@ -423,6 +456,9 @@ func enumerate(s *scenario, a *action, cid, ai int) []kObs {
 			case co.Head != tgt:
 				fail(name+"-rejected", "after restart the node cannot "+contWhat(a, ci)+": head did not reach the target")
 				verdicts = append(verdicts, name+"=stuck")
+			case !co.canonOK:
+				fail(name+"-canonical-index", "after restart and "+contWhat(a, ci)+" the new head's chain is not on the number->hash index (a canonical hash at or below the head is missing or names another block)")
+				verdicts = append(verdicts, name+"=canon-hole")
 			case !co.flatOK || !co.commitOK:
 				fail(name+"-inconsistent", "after restart and "+contWhat(a, ci)+" the flat key space does not match the new head (effects applied twice or orphaned)")
 				verdicts = append(verdicts, name+"=inconsistent")
@@ -456,6 +492,27 @@ type contRes struct {
 	err      string
 	flatOK   bool
 	commitOK bool
+	canonOK  bool
+}
+
+// canonHole walks the chain of block id back to genesis and reports the first height whose canonical
+// hash in the database is not that ancestor (model-independent: parent links of the scenario's blocks).
+func (s *scenario) canonHole(db ethdb.Database, id int) (uint64, bool) {
+	for guard := 0; id >= 0 && guard < 64; guard++ {
+		b, ok := s.Blocks[id]
+		if !ok {
+			return 0, false
+		}
+		n := uint64(0)
+		if id != 0 {
+			n = b.Num
+		}
+		if rawdb.ReadCanonicalHash(db, n) != b.Wo.Hash() {
+			return n, true
+		}
+		id = b.Parent
+	}
+	return 0, false
 }
 
 // continueTo restarts a node on a fresh copy of the image and moves it to the target block the
@@ -506,6 +563,11 @@ func continueTo(s *scenario, a *action, img image, tgt int) (res contRes) {
 	if res.Head > 0 {
 		root, cnt, err := utxoCommitment(db)
 		res.commitOK = err == nil && root == head.UTXORoot() && cnt == rawdb.ReadUTXOSetSize(db, head.Hash())
+	}
+	res.canonOK = true
+	if res.Head >= 0 {
+		_, bad := s.canonHole(db, res.Head)
+		res.canonOK = !bad
 	}
 	// the persisted head must agree with the in-memory one
 	if rawdb.ReadHeadBlockHash(db) != head.Hash() {
